@@ -45,11 +45,11 @@ def present_key(key: tuple, shape) -> tuple:
         if isinstance(k, slice) and m < len(shape):
             n = int(shape[m])
             lo, hi = k.start, k.stop
-            if hi is None or hi <= n:
-                if lo is not None and 0 <= lo < n:
-                    lo = lo - n
-                if hi is not None and 0 < hi < n:
-                    hi = hi - n
+            # (also when the upper bound grows the mode: "from the end" refers to the extent before the assignment)
+            if lo is not None and 0 <= lo < n:
+                lo = lo - n
+            if hi is not None and 0 < hi < n:
+                hi = hi - n
             out.append(slice(lo, hi, k.step))
         else:
             out.append(k)
